@@ -41,13 +41,15 @@ def main():
     ap.add_argument("--skip-tests", action="store_true")
     ap.add_argument("--json-out")
     ap.add_argument("--patch")
+    ap.add_argument("--base", default="HEAD", help="commit of /repo the change was seeded on (default: current HEAD)")
     a = ap.parse_args()
     src = os.path.abspath(a.dir)
     patch = a.patch or os.path.join(src, "patch.diff")
     demo = os.path.join(src, "demo.py")
     wt = "/tmp/seedchk_%d" % os.getpid()
     meta = dict(source=src, ran=[], repo_head=sh(["git", "-C", "/repo", "rev-parse", "--short", "HEAD"])[1].strip())
-    sh(["git", "-C", "/repo", "worktree", "add", "-f", "--detach", wt, "HEAD"])
+    sh(["git", "-C", "/repo", "worktree", "add", "-f", "--detach", wt, a.base])
+    meta["evaluated_on"] = sh(["git", "-C", wt, "rev-parse", "--short", "HEAD"])[1].strip()
     try:
         env = dict(PYTHONPATH=wt)
         have_demo = os.path.exists(demo)
